@@ -227,6 +227,18 @@ def run_for(ck):
                     continue
             ck.drifted(f"StopRA violates {r.violated} with the code's memory orders {k} but the real code passes on that schedule")
             continue
+        # liveness under fairness (the backend keeps iterating and eventually reads the newest messages): no export, no view
+        lprop = {"C06": "FlushReturns", "C17": "RemoveReturns"}.get(ck.prop, "StopEnds")
+        lcfg = vlib.write_cfg(vlib.BUILD / "cfg" / f"StopRA_{ck.prop}_{label}_live.cfg",
+                              cfg_text(k, recs, False, maxy, maxf, "TypeOK", maxr).replace("SPECIFICATION Spec", "SPECIFICATION FairSpec")
+                              .replace("VIEW StateView\n", "") + f"PROPERTY {lprop}\n")
+        rl = vlib.tlc("StopRA", lcfg, timeout=600)
+        if rl.error:
+            raise vlib.Infra(rl.error)
+        ck.add_tlc(rl, f"StopRA {label} liveness")
+        if rl.violated:
+            ck.drifted(f"StopRA {label}: liveness property {lprop} fails in the model ({rl.violated}) although the safety invariants hold")
+        ck.extra.setdefault("liveness_checked", []).append(f"StopRA {label}: {lprop} under FairSpec: {'violated' if rl.violated else 'holds'}")
         if quick:
             for a in ("XLog", "XStop") + (("XFlushCall",) if maxf else ()) + (("XRemoveCall",) if maxr else ()):
                 if not vlib.enabled(r, a):
